@@ -6,6 +6,7 @@ let unhex (s : string) : z list =
 let hex (l : z list) : string =
   if l = [] then "-" else String.concat "" (List.map (fun b -> Printf.sprintf "%02x" (int_of_z b)) l)
 
+let q_observe_arm = ["r4"; "r5"; "r6"; "r7"; "r8"; "r9"; "r10"; "r11"; "fp"; "r14"; "lr"; "r0"; "r12"]
 let q_observe = ["x19"; "x20"; "x21"; "x22"; "x23"; "x24"; "x25"; "x26"; "x27"; "x28"; "x29"; "fp"; "x30"; "lr"; "x0"]
 
 let () =
@@ -34,15 +35,16 @@ let () =
             let ((fields, line), (pid, mc)) = run_linux (unhex lsb) (unhex status) (unhex cpuinfo) in
             Printf.sprintf "L %s pid=%s mc=%s line=%s" (String.concat "," (List.map hex fields)) (string_of_z pid)
               (match mc with None -> "-" | Some v -> "0x" ^ ZA.format "%x" (z_to_zt v)) (hex line)
-          | "Q" :: callee :: lines :: _ ->
+          | "Q" :: callee :: lines :: rest ->
+            let arm = (rest = ["arm"]) in
             (* Q x19=1019,...,fp=1029 x29=728,x19=!;fp=872,x29=422   (! = an expression that fails) *)
             let bytes_of (t : string) : z list = List.init (String.length t) (fun i -> z_of_int (Char.code t.[i])) in
             let kv (e : string) = match String.split_on_char '=' e with [k; v] -> (k, v) | _ -> failwith "k=v" in
             let cal = List.map (fun e -> let (k, v) = kv e in (bytes_of k, z_of_string v)) (String.split_on_char ',' callee) in
             let written = List.concat_map (fun l -> if l = "-" then [] else List.map (fun e -> let (k, v) = kv e in
                 (bytes_of k, if v = "!" then None else Some (z_of_string v))) (String.split_on_char ',' l)) (String.split_on_char ';' lines) in
-            let observe = List.map bytes_of q_observe in
-            "Q " ^ String.concat "," (List.map (fun o -> match o with None -> "-" | Some v -> string_of_z v) (run_cfi_rules written cal observe))
+            let observe = List.map bytes_of (if arm then q_observe_arm else q_observe) in
+            "Q " ^ String.concat "," (List.map (fun o -> match o with None -> "-" | Some v -> string_of_z v) (run_cfi_rules arm written cal observe))
           | "A" :: rest ->
             (* A nk {susp outc}*nk nt {tree}*nt ns {t}*ns ; tree = d<v> | k<key> <ok subtree> <err subtree> *)
             let toks = ref rest in
